@@ -193,6 +193,10 @@ func main() {
 	rep := report.New("C01", "exploration")
 	rep.Rule = "every schedule within the deviation bound (preemptions + non-default successor choices) of publisher / joiner (attach, detach) / delivery goroutines on the real media layer; distinct = distinct (scenario, records of A and B) outcomes"
 	rep.Assumptions = []string{"sequentially consistent memory", "transport adapters are covered by the sequential adapter sweep (C01 part b) and C13"}
+	runner.FineP = 2 // statement-level points in the files of fine.txt
+	if rep.Thorough() {
+		runner.FineP = 2
+	}
 	runner.Run(rep, scenarios(rep.Thorough()))
 	adapters(rep)
 	rep.Finish()
